@@ -78,7 +78,7 @@ def run_probe(prop, pairs, max_devices=24):
         stats["runtime_devices"] += 1
         lines_f = [ln for ln in lines if ln["kind"] in focus]
         stats["runtime_lines"] += len(lines_f)
-        for why, where in rtprobe.compare(c, a["facts"], lines_f, printed, want):
+        for why, where in rtprobe.compare(c, a["facts"], lines_f, printed, want, mf):
             fid = None
             known = mf is not None and p_gen.facts_equal(a["facts"], mf)[0]
             if known and "valid index tuple panics" in why and prop == "C13":
